@@ -61,6 +61,11 @@ CLAIMS = {
          'TLC enumerates every token string of length <= 3 (thorough 4) over the family alphabets for ~45 types and every cell of the casting table with at least two source values, checks canonical-form fixed points, round trips along Y cells, inclusive subtype bounds and castable <=> cast on the specification, and the 474k edges are replayed (1.15M evaluations) so that the three implementation paths must agree with the spec and hence with each other.',
          'alphabet representatives only for Name/NCName/language/anyURI character classes; literals the W3C text leaves to the implementation are marked UNSPEC/LIMIT and never judged; second oracles (re with the XSD patterns, decimal, float, base64) cross-check the spec only',
          'DESIGN.md section 4 C10'),
+ 'C19': ('model_checking',
+         'TLA+ specs CollationLock (threads, per-thread stacks of with-frames, acquire/read/setlocale/fallback/yield/resume/abandon/exit actions with fault injection and installed-locale configurations; property variant and as-implemented variant), TraceCollation (ndjson trace validation) and Globals (environment gate, entity rejection, decimal context); TLC checks NoLockLeak, LocaleRestored, NoSelfWait and liveness over all interleavings; every behaviour of the replay graphs is reproduced on the real code with a scripted setlocale, an instrumented lock and a thread gate; logged traces validated by TLC',
+         'TLC explores all interleavings of 2 threads x 2 calls (3 in thorough) with every setlocale fault sequence and locale configuration (630k states), must pass the invariants and weak-fairness liveness on the property variant and must refute them on the as-implemented variant; 14k behaviours are replayed on the real CollationManager and call sites (every transition validated), per-thread-sequenced event logs of collation expressions and stress runs are accepted by the trace specification, and after every evaluation LC_COLLATE, the lock, os.environ and the decimal context are compared; environment and entity-declaration vectors come from the Globals graph.',
+         'only C, C.utf8 and POSIX locales exist here: faults and other locales are scripted through a patched locale.setlocale; the 8-thread run of independent Selectors is exploration, not model checking; XPath2Parser.__init__ reading LC_COLLATE without the lock is noted only',
+         'DESIGN.md section 4 C19'),
 }
 NOT_YET = 'check not built yet (construction in progress, see DESIGN.md section 5)'
 
